@@ -30,11 +30,21 @@ CHECKS = {
    level_text='TLC enumerates every line of command word + <= 2 argument tokens over 40 token kinds (legal spellings, truncated and malformed ones, hostile bytes: unterminated quotes/literals/shift sequences, oversized and negative literal counts, deep nesting, 8-bit, NUL, bad UTF-8, bare LF, glued tokens, 30 kB tokens) - 47,589 IMAP and 6,315 ManageSieve lines - and every message of <= 3 line tokens over 23 kinds (12,719); each IMAP line is sent in the not-authenticated, authenticated and selected state, each sieve line before and after authentication, each message is appended and then fetched with 28 FETCH attributes and searched with 19 SEARCH programs; plus connections that repeat an erroneous line 7 times. Each execution runs under a SIGALRM watchdog and is followed by NOOP on a second connection. TLC checks on every transcript: each line answered by exactly one tagged completion / continuation request / BYE-then-close, no BYE [SERVERBUG], no close without BYE, connection task never dies with an exception, no hang, others still served. Quick tier: seeded sample (2,200 + 500 lines, 60 messages); thorough: all.',
    level_note='The input quantifier is covered at TOKEN level only: arbitrary and mutated raw byte strings up to 64 KiB are not enumerable by a TLA+ model and no byte-level fuzzer is added (different technique). No prediction of WHICH completion is given. Dict backend (maildir for a slice of the message half in thorough).',
    design_ref='DESIGN.md section 7 C06'),
+ 'C07': dict(
+   technique='serialisation decision procedure transcribed into TLA+ (WireResp.tla) and checked by TLC; every enumerated value pushed through the real serialisers and through the echo paths of the real server, all output parsed by a strict independent response grammar; plus clause C07_WellFormed of Trace_Total.tla on every transcript of the C06 token campaign',
+   level_text='TLC enumerates every value over the byte classes {CH SP DQ BS CR LF NUL HI} up to length 4, short and long (9,362 states), and checks that the chosen wire form parses back to the value under the grammar\'s quoted-string acceptor. Each value is concretised and (i) serialised by the real String.build / AString, (ii) used as mailbox name in CREATE/LIST/LSUB/SUBSCRIBE/STATUS/SELECT/DELETE and in ten header and MIME-parameter slots echoed by ENVELOPE, BODYSTRUCTURE, BODY, HEADER.FIELDS and SEARCH, on dict and maildir, plus MIME nesting shapes (depth 1-6, empty multiparts, empty message/rfc822); (iii) the strict parser is on the path of all ~7,600 connection transcripts of the C06 campaign (token lines in three states, stored messages x 28 FETCH attributes) and a malformed byte is clause C07_WellFormed of the observer spec.',
+   level_note='Oracle: harness/respparse.py, written from RFC 3501 section 9 (+ LITERAL+, UIDPLUS, MOVE, BINARY, OBJECTID, ID), not pymap\'s own parser; structural checks of ENVELOPE and BODYSTRUCTURE included. NUL inside a (non-quoted) literal is not flagged: the property forbids it in quoted strings only and a verbatim store (C03) has no other way to send it. IMAP listener only. One open known finding (empty multipart).',
+   design_ref='DESIGN.md section 7 C07'),
  'C09': dict(
    technique='authentication part of Conn.tla (IMAP and ManageSieve instances) checked by TLC; every (state, input) pair over credential classes x mechanisms x TLS/peer configurations executed on the real server, identity probed by per-user marker mailbox / script',
    level_text='TLC checks on every generated step that auth changes only through an exchange whose credentials verify for an existing user and (authzid = authcid or admin role), that LOGIN is refused while LOGINDISABLED is advertised, and that failed, cancelled, malformed, empty or oversized exchanges leave auth unchanged. Every (state, input) pair of the IMAP (19 x 72) and ManageSieve (19 x 90) graphs is executed on the real server (local and remote peer, TLS required or not, before/after STARTTLS), with three provisioned users (two ordinary, one admin); after each input the identity is probed through marker mailboxes / LISTSCRIPTS; plus seeded sequences of failed and successful attempts.',
    level_note='Trusted: TLC, the probes. Fake start_tls (no real TLS). Mechanisms: those SASLAuth.defaults() offers here (PLAIN, LOGIN). Dict backend (maildir Login differs only in where users are stored; not exercised).',
    design_ref='DESIGN.md section 7 C09'),
+ 'C11': dict(
+   technique='RFC 3501 namespace reference model in TLA+ (Namespace.tla, recursive wildcard matcher, latitude as sets of allowed outcomes) checked by TLC; edge cover of its state graphs and seeded -simulate behaviours replayed on the real server with LIST/LSUB/STATUS/identity probes after every step; disagreeing executions judged by TLC against Trace_Namespace.tla',
+   level_text='TLC checks the model\'s own sanity (INBOX always exists and is never replaced, failing commands change nothing, RENAME preserves identities) and enumerates, for bounded names over an abstract alphabet (letters, delimiter, wildcards, INBOX case variants), every <reference, pattern, name-set> for the matcher part (100 names x 219 reference/pattern pairs) and all short programs of CREATE/DELETE/RENAME/SUBSCRIBE/UNSUBSCRIBE/LIST/LSUB/STATUS/APPEND; an edge cover is replayed on fresh real servers comparing after EVERY command the tagged result, LIST "" *, LSUB "" *, STATUS of every name, UIDVALIDITY/UIDNEXT/UIDs/bodies carried through RENAME. Names are sent in 7 concretisations (plain, case-only difference, space and quote, backslash, &, non-ASCII, mixed) and 3 spellings; modified UTF-7 is encoded/decoded by the check itself.',
+   level_note='Latitude of RFC 3501 (implied parents, CREATE of parents, SUBSCRIBE of missing names, reference handling, INBOX case) is modelled as allowed outcomes, so the check never demands more than the property states. Dict backend only; maildir layouts are not covered yet.',
+   design_ref='DESIGN.md section 7 C11'),
  'C12': dict(
    technique='TLC checks the action property ReadOnlyInert on MailboxSync.tla; random programs of message commands issued inside a read-only selection on the real server (checkpoint-interleaved with observing sessions), glass-box dump after every tagged response, validated by TLC against the observer spec Trace_RO.tla',
    level_text='Design: on MailboxSync.tla TLC checks that no step of a session with a read-only selection changes the store. Code: one session EXAMINEs INBOX or SELECTs a backend-read-only mailbox and issues seeded random programs of every message command and UID variant (STORE incl. \\Recent, \\Seen-setting FETCH, EXPUNGE, UID EXPUNGE, COPY, MOVE, SEARCH, NOOP, CHECK, CLOSE) and APPEND/COPY/MOVE into the read-only mailbox, interleaved at every lock checkpoint with 0-2 observing sessions; after every tagged response a dump (UIDs, permanent flags, stored recent bits) is logged; TLC checks on each recorded execution that every dump equals the baseline, that STORE/EXPUNGE/deliveries into the read-only mailbox answer NO, and that CLOSE answers OK and deselects.',
